@@ -173,8 +173,10 @@ class Runner:
                         key = None
                         what = 'REGRESSION of F-C08-mono-writer-errors-lost: ' + what
                     elif n > 1 and r.rc == 0:
-                        # only the last n-1 queued stripes may legitimately (w.r.t. the model) be lost
-                        key = KEY_LAST if (iteration is not None and iteration >= T - (n - 1)) else None
+                        # F-C08-last-writer-errors-lost was repaired in /repo (1304269: end-of-run flush): exit 0 after a failed
+                        # parity write is a regression in threaded mode too
+                        key = None
+                        what = 'REGRESSION of F-C08-last-writer-errors-lost: ' + what
                     elif r.rc != 0 and v['healthy']:
                         key = KEY_SYNCED
                     else:
@@ -214,26 +216,35 @@ class Runner:
         now = max([i['time'] for i in st2['info'] if i] + [0])
         iol = case.get('limit') if case.get('limit') is not None else 100
         rq = []
-        wq = []
+        wfl = []
         for (kind, pos, who, errno) in targets:
             if pos is None:
                 continue
             if kind == 'rd':
                 rq += [str(pos), str(int(who[1:]) - 1), 'I' if errno == EIO else 'F']
             else:
-                wq += [str(pos), str(who), 'E' if errno == EIO else 'N']
+                wfl.append((pos, who, 'E' if errno == EIO else 'N'))
         n = case['cache']
-        # a lag beyond the number of remaining iterations means 'never collected': lags up to the number of enabled stripes cover all schedules
-        lags = [1] if n == 1 else list(range(1, min(n, len(self.ref.enabled) + 2)))
+        # every failing write has its own writer schedule (one thread per level): search the admissible lags of each.  A lag
+        # beyond the number of remaining iterations means 'collected by the end-of-run flush': lags up to the number of enabled
+        # stripes cover all schedules
+        import itertools
+        lrange = [1] if n == 1 else list(range(1, min(n, len(self.ref.enabled) + 2)))
+        lags = list(itertools.islice(iter(sorted(itertools.product(lrange, repeat=len(wfl)), key=lambda t: (sum(t), t))), 3000)) if wfl else [()]
         sm = r.summary()
         bailed_real = sm.get('exit') not in ('ok', 'error')
         real = {'fail': r.rc != 0, 'content': self.norm(br.ser_content(st2), hide=bailed_real)}
         if not bailed_real:
             real.update({'nerr': int(sm.get('error_file', 0)), 'nio': int(sm.get('error_io', 0)), 'nsil': int(sm.get('error_data', 0))})
         first = None
-        for lag in lags:
-            req = ['syncw', '0', '0', str(iol), str(now), str(a.bs), str(a.np), '-1', '0', str(st1['blockmax']), 'M', str(n), str(lag)] + \
-                br.ser_hashes() + br.ser_content(st1) + br.ser_parity() + fs_toks + ['Q', str(len(rq) // 3)] + rq + ['W', str(len(wq) // 3)] + wq
+        base = ['syncw', '0', '0', str(iol), str(now), str(a.bs), str(a.np), '-1', '0', str(st1['blockmax']), 'M', str(n), '1'] + \
+            br.ser_hashes() + br.ser_content(st1) + br.ser_parity() + fs_toks + ['Q', str(len(rq) // 3)] + rq
+        for lagc in lags:
+            wq = []
+            for (wpos, wlev, wk), lg in zip(wfl, lagc):
+                wq += [str(wpos), str(wlev), wk, str(lg)]
+            lag = max(lagc) if lagc else 1
+            req = base + ['W', str(len(wfl))] + wq
             out = run_lines(self.model, [' '.join(req)], shards=1)[0]
             if not out.startswith('ok '):
                 chk.violation('model_error', 'fault model failed: %s' % out[:200], {'request': ' '.join(req)[:4000]}, no_input=True)
@@ -268,7 +279,7 @@ class Runner:
                     chk.violation('drift_parity', 'MODEL-DRIFT: fault model and binary disagree on parity after a faulty sync: %s' % errs[0], rep, no_input=True)
                 self.stats['model_compared'] += 1
                 self.stats['lag_seen'][lag] = self.stats['lag_seen'].get(lag, 0) + 1
-                rep['model_lag'] = lag
+                rep['model_lag'] = list(lagc)
                 return
         m, req = first
         chk.violation('drift', 'MODEL-DRIFT: no admissible writer schedule of the fault model reproduces the faulty sync (io_cache %d, faults %s): real fail=%s %s, model(lag 1) fail=%s nerr=%d nio=%d bailed=%s' % (
@@ -439,7 +450,7 @@ def scrub_cases(ref, scn, caches, quick):
 
 WITNESSES = [  # the vm_compute witnesses of coq/Fault/FaultProofs.v: 2 data disks x 8 blocks, one parity, all additions
     ('write_error_refuted_threaded_notlast', {'cache': 3, 'faults': [('wr', 0, 4, EIO)]}),
-    ('write_error_refuted_threaded_last', {'cache': 3, 'faults': [('wr', 0, 8, EIO)]}),
+    ('write_error_last_recorded_synced', {'cache': 3, 'faults': [('wr', 0, 8, EIO)]}),
     ('write_error_refuted_mono_recorded_synced', {'cache': 1, 'faults': [('wr', 0, 4, EIO)]}),
 ]
 
